@@ -1,5 +1,6 @@
 import DaskModel.Lemmas.TaskTerm
 import DaskModel.Lemmas.Pickle
+import DaskModel.Lemmas.NodeEval
 /-!
 # C08 — legacy → task-spec conversion and execution preserve the graph's meaning
 
@@ -197,67 +198,8 @@ theorem convertGraph_preserves_eval_partial (g : LGraph) (keys : List Obj) (cach
 
 /-! ### dependencies: exactly the keys a node references -/
 
-mutual
-/-- the reported dependencies suffice: evaluation looks at no other key -/
-theorem evalNode_congr (env env' : Obj → Option Obj) : ∀ n : Node, (∀ k ∈ n.deps, env k = env' k) →
-    evalNode env n = evalNode env' n
-  | .alias t, h => by simpa [evalNode] using h t (by simp [Node.deps])
-  | .data _, _ => by simp [evalNode]
-  | .ref k, h => by simpa [evalNode] using h k (by simp [Node.deps])
-  | .raw _, _ => by simp [evalNode]
-  | .task f args kw, h => by
-    have h1 := evalNodes_congr env env' args (fun k hk => h k (by simp [Node.deps, hk]))
-    have h2 := evalKw_congr env env' kw (fun k hk => h k (by simp [Node.deps, hk]))
-    simp only [evalNode, h1, h2]
-theorem evalNodes_congr (env env' : Obj → Option Obj) : ∀ ns : List Node, (∀ k ∈ depsList ns, env k = env' k) →
-    evalNodes env ns = evalNodes env' ns
-  | [], _ => by simp [evalNodes]
-  | n :: ns, h => by
-    have h1 := evalNode_congr env env' n (fun k hk => h k (by simp [depsList, hk]))
-    have h2 := evalNodes_congr env env' ns (fun k hk => h k (by simp [depsList, hk]))
-    simp only [evalNodes, h1, h2]
-theorem evalKw_congr (env env' : Obj → Option Obj) : ∀ ns : List (Obj × Node), (∀ k ∈ depsKw ns, env k = env' k) →
-    evalKw env ns = evalKw env' ns
-  | [], _ => by simp [evalKw]
-  | (a, n) :: ns, h => by
-    have h1 := evalNode_congr env env' n (fun k hk => h k (by simp [depsKw, hk]))
-    have h2 := evalKw_congr env env' ns (fun k hk => h k (by simp [depsKw, hk]))
-    simp only [evalKw, h1, h2]
-end
-
-mutual
-/-- every reported dependency is needed: if it is missing the node cannot be evaluated (`_verify_values`) -/
-theorem evalNode_missing (env : Obj → Option Obj) (k : Obj) (hk : env k = none) : ∀ n : Node, k ∈ n.deps →
-    evalNode env n = none
-  | .alias t, h => by simp [Node.deps] at h; subst h; simpa [evalNode] using hk
-  | .data _, h => by simp [Node.deps] at h
-  | .ref r, h => by simp [Node.deps] at h; subst h; simpa [evalNode] using hk
-  | .raw _, h => by simp [Node.deps] at h
-  | .task f args kw, h => by
-    simp only [Node.deps, List.mem_append] at h
-    rcases h with h | h
-    · simp [evalNode, evalNodes_missing env k hk args h]
-    · simp only [evalNode, evalKw_missing env k hk kw h]
-      cases evalNodes env args <;> rfl
-theorem evalNodes_missing (env : Obj → Option Obj) (k : Obj) (hk : env k = none) : ∀ ns : List Node,
-    k ∈ depsList ns → evalNodes env ns = none
-  | [], h => by simp [depsList] at h
-  | n :: ns, h => by
-    simp only [depsList, List.mem_append] at h
-    rcases h with h | h
-    · simp [evalNodes, evalNode_missing env k hk n h]
-    · simp only [evalNodes, evalNodes_missing env k hk ns h]
-      cases evalNode env n <;> rfl
-theorem evalKw_missing (env : Obj → Option Obj) (k : Obj) (hk : env k = none) : ∀ ns : List (Obj × Node),
-    k ∈ depsKw ns → evalKw env ns = none
-  | [], h => by simp [depsKw] at h
-  | (a, n) :: ns, h => by
-    simp only [depsKw, List.mem_append] at h
-    rcases h with h | h
-    · simp [evalKw, evalNode_missing env k hk n h]
-    · simp only [evalKw, evalKw_missing env k hk ns h]
-      cases evalNode env n <;> rfl
-end
+/-! `evalNode_congr` (the reported dependencies suffice) and `evalNode_missing` (each one is needed) are proved in
+    Lemmas/NodeEval.lean by mutual induction over nodes, argument lists and keyword arguments. -/
 
 /-- `deps_exact` for task-spec nodes: the reported dependencies are exactly the keys whose value matters. -/
 theorem deps_exact (n : Node) :
